@@ -50,6 +50,9 @@ type Cfg struct {
 	// Coarse: a section issues its reads and writes and then PreCommit back to back in one scheduler step
 	// (no message is processed at that node in between).  A restriction of the schedule space.
 	Coarse bool `json:"coarse,omitempty"`
+	// LazyTimers: virtual time passes (back-off and 1 s retry sleeps end) only when no other move is enabled,
+	// i.e. timers are slower than every message and every local step.  A restriction of the schedule space.
+	LazyTimers bool `json:"lazy_timers,omitempty"`
 }
 
 func (c *Cfg) name() string {
@@ -70,6 +73,9 @@ func (c *Cfg) name() string {
 	}
 	if c.Coarse {
 		at += "/coarse-ops"
+	}
+	if c.LazyTimers {
+		at += "/lazy-timers"
 	}
 	if c.Budget > 0 && len(c.Faults) == 1 {
 		at += "/only-" + c.Faults[0]
@@ -428,7 +434,7 @@ func (w *world) enabledAll() (free, faults []move) {
 			free = append(free, move{kind: "op", n: nd.idx})
 		}
 	}
-	if w.timePending() {
+	if w.timePending() && (!w.cfg.LazyTimers || len(free) == 0) {
 		free = append(free, move{kind: "time"})
 	}
 	if w.probing || len(w.cfg.Faults) == 0 || w.c.Remaining() <= 0 {
